@@ -361,4 +361,7 @@ def run(repo: Repo, tier: str) -> Report:
     rep.floor("C01 LDL' obligations", len(rep.obls), 20)
     # export for C06
     rep.band_by = by
+    # the public fixed-lambda entry point hands the solver the lambda the caller asked for at each pixel
+    from ..rules import whits_lambda
+    whits_lambda(rep, repo)
     return rep
